@@ -271,8 +271,23 @@ Section FromPb.
 End FromPb.
 
 (* ---------- bytes-to-sign ---------- *)
-(* QuorumCert.ToBytes: view, hash, signature bytes unless the signature is nil *)
-Definition qc_bytes (q : qc) : bytes :=
+(* the claimed participants as QuorumCert.ToBytes appends them: each id (4 bytes LE), then their count *)
+Definition participants_bytes (ids : list rid) : bytes :=
+  concat (map le32 ids) ++ le32 (N.of_nat (length ids)).
+
+(* what follows view and hash: nothing for a nil signature, else signature bytes ++ participants *)
+Definition qc_sig_part (s : qsig) : bytes :=
+  match sig_bytes s, sig_participants s with
+  | Ok b, Ok ids => b ++ participants_bytes ids
+  | _, _ => []
+  end.
+
+(* QuorumCert.ToBytes (repaired, fixes/C12-qc-bytes-bind-signers.patch): view, hash and, unless the
+   signature is nil, the signature bytes, the participant ids and their count *)
+Definition qc_bytes (q : qc) : bytes := le64 (qc_view q) ++ qc_hash q ++ qc_sig_part (qc_sig q).
+
+(* the encoding before the repair: signature bytes only (kept for the refutation witness) *)
+Definition qc_bytes_old (q : qc) : bytes :=
   le64 (qc_view q) ++ qc_hash q ++ match sig_bytes (qc_sig q) with Ok b => b | _ => [] end.
 
 (* PartialCert.ToBytes / TimeoutCert.ToBytes call ToBytes on the signature unguarded *)
@@ -293,6 +308,10 @@ Definition agg_messages (a : aggqc) : list (rid * bytes) :=
 (* Block.ToBytes *)
 Definition block_bytes (b : block) : bytes :=
   b_parent b ++ le32 (b_proposer b) ++ le64 (b_view b) ++ b_batch b ++ qc_bytes (b_cert b)
+  ++ le64 (ts_nanos (b_ts b)).
+
+Definition block_bytes_old (b : block) : bytes :=
+  b_parent b ++ le32 (b_proposer b) ++ le64 (b_view b) ++ b_batch b ++ qc_bytes_old (b_cert b)
   ++ le64 (ts_nanos (b_ts b)).
 
 (* ---------- observables the property speaks about ---------- *)
